@@ -15,7 +15,14 @@ unless the report is empty and empty reports are not to be sent.
 Items are abstracted to their encoded sizes: an attribute report is written atomically by
 `HandlerInvoker::process_read` / `send_array_items`, an event report by `EventReader::process_read`
 (on any error the buffer is rewound to the position before the report), so a report is either
-completely in a chunk or not at all.  Import-free (apart from the generated constants).
+completely in a chunk or not at all.  A report is thereby identified with its kind, the id of its
+attribute (a list element: + its list index; an event: its number) and its encoded size — not with
+its bytes; there is no write position inside a report, no rewind position, no list-index variable
+here.  For the attribute section that level — bytes of the `WriteBuf`, writes that fail half way,
+the rewind positions, the list index carried across chunks, the loops as loops — is
+`Model/ChunkCursor.lean`, proved to refine this model (`Lemmas/ChunkCursor.lean`: `cputAttrs_sim`).
+At the end of this file: the token view of a message (`msgToks`, `wellFormed`).
+Import-free (apart from the generated constants).
 -/
 namespace Chunk
 
@@ -106,6 +113,11 @@ inductive Err
   | loops
   /-- an event report does not fit an empty message: the interaction fails with `ResourceExhausted` -/
   | tooBig
+  /-- cursor level only (`Model/ChunkCursor.lean`): `list_index + 1` on the `u16` list index of
+  `send_array_items` overflows — a panic in a build with overflow checks (dev profile, the harness); the
+  release profile of the workspace has `overflow-checks = false`: there the index wraps to 0 and the
+  list is streamed again, without end -/
+  | overflow
 deriving Repr, DecidableEq, Inhabited
 
 /-! ## attribute section -/
@@ -462,5 +474,53 @@ structure Cfg.WF (c : Cfg) : Prop where
   struct : c.close + c.evOpen + c.close ≤ c.structReserve
   start : c.hdr + c.arrOpen ≤ c.limit
   startEv : c.hdr + c.evOpen ≤ c.limit
+
+/-! ## the TLV container structure of a message (token view)
+
+What a message opens and closes, derived from its reports and the flags that `Accounts`
+(`Lemmas/ChunkAcc.lean`) uses for its length: `a` — the message contains the attribute array (or its
+continuation), `e` — it contains the event array.  `start_reply`: the ReportData struct
+[+ subscription id]; `start_array(AttributeReports)`; one struct per attribute report; the array end
+— by a structural `end_container` when the array ends inside the message (`a && (e || !more)`), else
+by the trailer; the same for EventReports; `end_reply`: for a non-final message the end of the array
+that is still open, MoreChunkedMessages, the revision, the struct end; for the final one
+[SuppressResponse], the revision, the struct end. -/
+
+inductive Tok
+  /-- start of a struct / array -/
+  | op
+  /-- `end_container` -/
+  | cl
+  /-- a scalar element -/
+  | leaf
+deriving Repr, DecidableEq, Inhabited
+
+/-- a report: a struct with content -/
+def reportToks : List Tok := [.op, .leaf, .cl]
+
+def msgToks (subId suppress a e : Bool) (ch : ChunkOut) : List Tok :=
+  [.op] ++ (if subId then [.leaf] else []) ++
+  (if a then .op :: ch.pieces.flatMap (fun _ => reportToks) else []) ++
+  (if a && (e || !ch.more) then [.cl] else []) ++
+  (if e then .op :: ch.events.flatMap (fun _ => reportToks) else []) ++
+  (if e && !ch.more then [.cl] else []) ++
+  (if ch.more then [.cl, .leaf, .leaf, .cl] else (if suppress then [.leaf] else []) ++ [.leaf, .cl])
+
+/-- walk over the tokens inside the top-level container from nesting depth `d ≥ 1`; the result is the
+depth at the end.  `none`: a container is closed that was not opened, or the top-level container is
+closed before the last token (something follows it) -/
+def walk : List Tok → Nat → Option Nat
+  | [], d => some d
+  | .op :: ts, d => walk ts (d + 1)
+  | .leaf :: ts, d => walk ts d
+  | .cl :: _, 0 => none
+  | .cl :: ts, 1 => if ts.isEmpty then some 0 else none
+  | .cl :: ts, d + 2 => walk ts (d + 1)
+
+/-- a well-formed message: ONE top-level container, every container closed by its own `end_container`,
+the top-level one by the very last token -/
+def wellFormed : List Tok → Bool
+  | .op :: ts => walk ts 1 == some 0
+  | _ => false
 
 end Chunk
